@@ -327,7 +327,7 @@ func (c *fctx) nameOf(obj types.Object) string {
 	return n
 }
 
-func globalName(v *types.Var) string { return "g_" + v.Name() }
+func globalName(v *types.Var) string { return "gv_" + v.Name() }
 
 // ---------- expressions ----------
 //
@@ -1568,7 +1568,7 @@ func header() string {
        qualified name through GoSem.ecode; fmt.Errorf(...) builds a non-nil error identified by
        the function it occurs in; nil is None;
      * a package-level bool / integer variable read by a function is a leading parameter
-       g_<name> (its value at the time of the call). *)
+       gv_<name> (its value at the time of the call). *)
 From GV Require Import Lib.Bytes Lib.Res Lib.GoSem.
 Open Scope Z_scope.
 `
